@@ -12,7 +12,8 @@ open Ruma Ruma.Proto Ruma.EventDispatch Ruma.Spec.EventTypes
 Request: `c18.schema <kind> s<type> <json tokens> <schema tokens>`; answer `ok <tokens of the output,
 entries of every object sorted by key (stable)>` / `err` / `err-wf` (the schema sent by the harness
 fails the decidable part of `WF`: a harness bug or an implementation whose facts contradict each
-other). Schema tokens (prefix notation):
+other) / `err-fix` (the output is not its own fixpoint: a scalar reader of this file is not
+idempotent). Schema tokens (prefix notation):
 
     A                      serde_json::Value
     L<Kind>                scalar leaf: Str Int UInt Bool Float IntLax Voip UserId EventId RoomId RoomAlias
@@ -249,7 +250,12 @@ def answer (toks : List String) : String :=
     | some (s, []) =>
       if !wfb s then "err-wf" else
       match project s j with
-      | some v => "ok " ++ showVal (canon v)
+      | some v =>
+        -- `roundtrip_fixpoint` on this very output (covers what `wfb` cannot decide: idempotence of
+        -- the scalar readers on the values that occurred)
+        match project s v with
+        | some v' => if v' == v then "ok " ++ showVal (canon v) else "err-fix"
+        | none => "err-fix"
       | none => "err"
     | _ => "bad-op"
   | none => "bad-op"
